@@ -161,7 +161,8 @@ class HTTPException(BaseResponse, Exception):
         headers = kwargs.pop('headers', None)
         mimetype = kwargs.pop('mimetype', DEFAULT_MIME)
         content_type = kwargs.pop('content_type', None)
-        super(HTTPException, self).__init__(response=self.to_text(),
+        body = self._encode(self.to_text())
+        super(HTTPException, self).__init__(response=body,
                                             status=self.code,
                                             headers=headers,
                                             mimetype=DEFAULT_MIME,
@@ -176,8 +177,15 @@ class HTTPException(BaseResponse, Exception):
         except KeyError:
             fmt_name, mimetype = 'text', 'text/plain'
         _method = getattr(self, 'to_' + fmt_name)
-        self.data = _method()
+        self.data = self._encode(_method())
         self.headers['Content-Type'] = get_content_type(mimetype, self.charset)
+
+    def _encode(self, text):
+        # the serialized error can carry any text (exception messages,
+        # surrogate-escaped paths), werkzeug would encode it strictly
+        if isinstance(text, bytes):
+            return text
+        return text.encode(self.charset, 'backslashreplace')
 
     def transcribe(self, request):
         # TODO
